@@ -366,11 +366,11 @@ def _check_method(chk, F, t, m, mi, props):
                     names = [o.get('c', {}).get('repr', '') for o in rv['ops']]
     ob('C05', 'R05.1', '%s evaluates its own MockFn (info path [%s, %s])' % (where, tname, mname), names == ['"%s"' % tname, '"%s"' % mname], site=site + ':mockfn',
        what='evaluates MockFn %s with path %s' % (F_ty.split('<')[0][-40:], names), found={'F': F_ty, 'path': names}, expected=[tname, mname])
-    if len(info) == 1 and ({'C07', 'C15'} & set(props)):
+    if len(info) == 1 and ({'C07', 'C15', 'C16'} & set(props)):
         # the static info the runtime resolves unmentioned calls by: "has a default body" exactly for provided methods
         icalls = [symex.callee_name(tt) for b_ in [info[0]] + list(info[0].promoted) for _, tt in b_.calls()]
         flagged = any(re.search(r'MockFnInfo::default_impl$', c_) for c_ in icalls)
-        rid = 'R07.5' if 'C07' in props else 'R15.1'
+        rid = 'R07.5' if 'C07' in props else ('R15.1' if 'C15' in props else 'R16.3')
         chk.ob(rid, '%s: MockFn::info() says "has a default body" exactly when the method is provided' % where, flagged == bool(m['provided']), config=cfg, fn=info[0], site=site + ':info-default',
                what='info().default_impl flag %s for a %s method' % (flagged, 'provided' if m['provided'] else 'required'), found={'flagged': flagged, 'provided': m['provided']})
     if 'C19' in props:
